@@ -89,7 +89,7 @@ def _case(draw):
     for d in (docs[0], docs[-1]):
         d['items'] = [['fwd', tdoc.raw('anchor.deep', '!xref')]] + [kv for kv in d['items'] if kv[0] != 'fwd']
     docs[0]['items'].append(['strs', tdoc.sq([tdoc.sc('s'), tdoc.sc('', q='single'), tdoc.sc('yes', q='double'), tdoc.sc('multi\nline')])])
-    ops = draw(st.lists(st.tuples(st.sampled_from(['reeval', 'set', 'del', 'append', 'nested', 'attr', 'deepcopy', 'reeval']),
+    ops = draw(st.lists(st.tuples(st.sampled_from(['reeval', 'set', 'del', 'append', 'nested', 'attr', 'deepcopy', 'reeval', 'update', 'pop', 'clear', 'read']),
                                   st.integers(0, 9), st.integers(0, 9)), min_size=1, max_size=8))
     return {'docs': docs, 'ops': [list(o) for o in ops], 'ndyn': ctr[0], 'shared_ctx': draw(st.booleans())}
 
@@ -199,6 +199,7 @@ def run_case(case):
     mutated = False
     nontrivial = False
     hist = []
+    removed_keys = []
 
     def containers(v, path=()):
         out = [(path, v)]
@@ -256,9 +257,38 @@ def run_case(case):
                 elif op == 'attr':
                     if isinstance(c, dict):
                         setattr(c, 'attr%d' % b, b)
+                elif op == 'read':
+                    # read every entry through attribute access (what user code does all the time)
+                    for _, cc in conts:
+                        if isinstance(cc, dict):
+                            for k in list(cc):
+                                if isinstance(k, str) and k.isidentifier() and not k.startswith('_'):
+                                    getattr(cc, k)
+                elif op == 'update':
+                    if isinstance(c, dict) and c:
+                        c.update({list(c)[b % len(c)]: ['updated', b]})
+                elif op == 'pop':
+                    if isinstance(c, dict) and c:
+                        removed_keys.append((c, list(c)[b % len(c)]))
+                        c.pop(list(c)[b % len(c)])
+                elif op == 'clear':
+                    if isinstance(c, dict) and path:
+                        removed_keys.extend((c, k) for k in list(c))
+                        c.clear()
             except (ValueError, TypeError, AttributeError):
                 pass        # e.g. name conflicts of the bunch pattern: not the subject here
             mutated = True
+            # the mappings of the result stay attribute-accessible dicts whatever dict method changed them
+            from awesomeyaml.utils import Bunch
+            for p_, cc in containers(cfg):
+                if isinstance(cc, Bunch):
+                    for k in list(cc):
+                        if isinstance(k, str) and k.isidentifier() and not k.startswith('_'):
+                            if getattr(cc, k) is not cc[k]:
+                                raise Violation(f'C11: after {hist}: cfg{list(p_)}.{k} is {getattr(cc, k)!r} but cfg{list(p_)}[{k!r}] is {cc[k]!r}{src}')
+            for cc, k in removed_keys:
+                if isinstance(k, str) and k.isidentifier() and not k.startswith('_') and k not in cc and hasattr(cc, k):
+                    raise Violation(f'C11: after {hist}: entry {k!r} was removed from a mapping of the result but is still readable as an attribute{src}')
         snap = snapshot(source)
         if snap != snap0:
             diff = [(x, y) for x, y in zip(snap0, snap) if x != y][:3]
